@@ -17,6 +17,7 @@ def run(chk):
     c04.instance(chk, "odd", "odd", 2 if thorough else 58, 63, ab, base="N", only=ABORT)
     c04.instance(chk, "odd-nn", "odd", 2 if thorough else 30, 63 if thorough else 33, ab, base="NN", only=ABORT)
     c04.instance(chk, "uniform", "uniform", 1, 63, ["AN", "NA"] + (["A", "AS"] if thorough else []), only=ABORT)
+    c04.library(chk, ABORT, maxn=3 if thorough else 2, extra=("N", "NA"))
     from . import c08
     c08.redispatch(chk, ABORT)
     chk.exhaustive = True
